@@ -256,7 +256,7 @@ def strat_sd(tier):
     st.tuples(st.just("call"), st.integers(0, 5)),
   )
   return st.fixed_dictionaries(dict(named=st.booleans(), ops=st.lists(op, max_size=maxlen),
-                                    values=st.sampled_from(["functions", "functions", "bound methods"])))
+                                    values=st.sampled_from(["functions", "functions", "bound methods", "falsy callables"])))
 
 
 class _Strategies(object):
@@ -274,6 +274,30 @@ class _Strategies(object):
     return (3, a)
 
 
+class _Falsy(object):
+  """A strategy object whose truth value is False (e.g. an empty pipeline that is also a container)."""
+  def __init__(self, i):
+    self.i = i
+
+  def __call__(self, *a, **kw):
+    return (self.i, a)
+
+  def __len__(self):
+    return 0
+
+  def __eq__(self, o):
+    return isinstance(o, _Falsy) and o.i == self.i
+
+  def __ne__(self, o):
+    return not self == o
+
+  def __hash__(self):
+    return hash(("falsy", self.i))
+
+  def __repr__(self):
+    return "Falsy(%d)" % self.i
+
+
 def run_sd(case):
   def mk(i):
     def f(*a, **kw):
@@ -284,11 +308,13 @@ def run_sd(case):
   fixed = [mk(i) for i in range(NF)]
   # val(i): the i-th strategy; for bound methods a fresh, equal but not identical object each time
   val = (lambda i: getattr(holder, "m%d" % i)) if methods else (lambda i: fixed[i])
+  if case.get("values") == "falsy callables":
+    val = lambda i: _Falsy(i)          # equal, not identical, and bool(strategy) is False
   idx = lambda f: [i for i in range(NF) if val(i) == f][0]
   sd = StrategyDict("sd_under_test") if case["named"] else StrategyDict()
   m = Model()
   default = [None]      # index of the expected default
-  facts = set(["values:" + ("bound methods" if methods else "functions")])
+  facts = set(["values:" + case.get("values", "functions")])
 
   def mdelete(k):
     g = m.find(k)
@@ -327,7 +353,7 @@ def run_sd(case):
       mset((op[1],), op[2])
     elif op[0] == "deco":
       f = val(op[2])
-      keep = op[3] or methods          # a bound method's __name__ cannot be rewritten
+      keep = op[3] or methods or case.get("values") == "falsy callables"   # no writable __name__ there
       ret = sd.strategy(*op[1], keep_name=keep)(f)
       if ret is not sd:
         raise Violation("strategy()(f) returned %r, not the dict %s" % (ret, ctx))
